@@ -64,6 +64,21 @@ def handle : Handler := fun j => do
     | .ok as => pure (Json.mkObj [("out", "ok"), ("actions", Json.arr (as.map actionJson).toArray)])
     | .err e => pure (errJson e)
     | .fuel => pure (Json.mkObj [("out", "fuel")])
+  | "declopts" =>
+    let v ← variantOf j
+    let dictJson (d : Dict) : Json := Json.arr (d.map fun p => Json.arr #[ofStr p.1, ofStr p.2]).toArray
+    let trap := match j.getObjVal? "trap" with | .ok (Json.bool b) => b | _ => false
+    if trap then
+      match tableDeclOptsPinned v (← jstrOpt j "pdir") (← envOf j) (← jstr j "text") with
+      | .ok (some d) => pure (Json.mkObj [("out", "ok"), ("opts", dictJson d)])
+      | .ok none => pure (Json.mkObj [("out", "err"), ("err", "PdbTrap")])
+      | .err e => pure (errJson e)
+      | .fuel => pure (Json.mkObj [("out", "fuel")])
+    else
+      match tableDeclOpts v (← jstrOpt j "pdir") (← envOf j) (← jstr j "text") with
+      | .ok d => pure (Json.mkObj [("out", "ok"), ("opts", dictJson d)])
+      | .err e => pure (errJson e)
+      | .fuel => pure (Json.mkObj [("out", "fuel")])
   | "parse" =>
     let v ← variantOf j
     match parse v (← jstrOpt j "pdir") (← jstr j "text") with
